@@ -83,6 +83,19 @@ fn acct_plans(prop: &'static str, thorough: bool) -> Vec<Plan> {
                 ("submitted", small_funds(|| seed_submitted(&k), 250)),
                 ("full_exit", small_funds(|| seed_full_exit(&k), 250)),
                 ("sweep", small_funds(|| seed_sweep(&k), 250)),
+                // two refundable staked-asset transfers while the contract also holds a received batch
+                ("received_refundable2", small_funds(
+                    || {
+                        let mut s = seed_received(&k);
+                        for kind in [1u8, 2] {
+                            let ap = s.apply(&hold(stake(&u(1), 20 + kind as u128)));
+                            let seq = ap.out.new_packets[0];
+                            s.apply(&Act::Outcome { seq, kind });
+                        }
+                        s
+                    },
+                    250,
+                )),
             ],
         );
         let mut o = MenuOpt::base();
@@ -95,6 +108,8 @@ fn acct_plans(prop: &'static str, thorough: bool) -> Vec<Plan> {
         o.recover_paginated = thorough;
         o.recover_receivers = vec![Some(n20(&k, "n1"))];
         o.stake_to_staker = true;
+        o.recover_forced = true;
+        o.reply_faults = true;
         let mut sc = mk(&format!("acct-{}-{}", prop, k.name), vec![prop], seeds, Box::new(move |s| std_menu(s, &o)));
         sc.goal = Some(Box::new(|pre, a, ap, post| {
             let mut g = vec![];
@@ -246,7 +261,7 @@ fn lst_plans(thorough: bool) -> Vec<Plan> {
         o.rewards = vec![50];
         o.stake_amts = vec![100, 37];
         o.max_dev = if thorough { 2 } else { 1 };
-        o.recover_receivers = vec![Some(n20(&k, "n1"))];
+        o.recover_receivers = vec![Some(n20(&k, "n1")), Some(n20(&k, "n2"))];
         let kk = k.clone();
         let menu: Menu = Box::new(move |s| {
             let mut a = std_menu(s, &o);
@@ -393,7 +408,7 @@ fn wd_plans(thorough: bool) -> Vec<Plan> {
         }
         g
     }));
-    let depth = if thorough { 8 } else { 6 };
+    let depth = if thorough { 7 } else { 6 };
     out.push(Plan {
         sc,
         depth,
@@ -553,6 +568,13 @@ fn ibc_plans(thorough: bool) -> Vec<Plan> {
                 }
             }
             a.push(Act::IbcUp { up: !s.w.ibc.up });
+            // the transfer module answers without reply data / with undecodable data
+            if s.w.ibc.reply_fault != 0 {
+                a.push(Act::ReplyFault { mode: 0 });
+            } else if outstanding < maxk {
+                a.push(Act::ReplyFault { mode: 1 });
+                a.push(Act::ReplyFault { mode: 2 });
+            }
             // stray acknowledgements: other channel, unknown sequence, already settled sequence
             let known: Vec<u64> = s.m.packets.keys().copied().collect();
             let mut strays: Vec<(String, u64)> = vec![("channel-77".into(), 1), (SIM_CHANNEL.into(), 999)];
@@ -587,6 +609,10 @@ fn ibc_plans(thorough: bool) -> Vec<Plan> {
                 sels.push(vec![*i]);
                 for j in &ids {
                     sels.push(vec![*i, *j]);
+                    if i != j {
+                        // a repeated id that is not adjacent to its first occurrence
+                        sels.push(vec![*i, *j, *i]);
+                    }
                 }
             }
             for sel in sels {
